@@ -1,3 +1,5 @@
+import SlipVerif.Model.Clos
 import SlipVerif.Model.Num
+import SlipVerif.Driver.Clos
 import SlipVerif.Driver.Num
 import SlipVerif.Driver.Util
